@@ -29,7 +29,7 @@ void harness(void)
     VF_ASSERT(e.allow_tld == (EAV_TLD_COUNTRY_CODE | EAV_TLD_GENERIC | EAV_TLD_GENERIC_RESTRICTED |
                               EAV_TLD_INFRASTRUCTURE | EAV_TLD_SPONSORED | EAV_TLD_SPECIAL),
               "C08: eav_init allows every class except not-assigned, test and retired");
-    VF_ASSERT(eav_errstr(&e) == cb_msg_of(EEAV_NO_ERROR), "C15: a fresh object reports no error");
+    VF_ASSERT(CB_SAME_MSG(eav_errstr(&e), cb_msg_of(EEAV_NO_ERROR)), "C15: a fresh object reports no error");
 
     /* C15: every code has a non-empty message that names its condition (keyword taken from the code's name) */
     {
@@ -71,7 +71,7 @@ void harness(void)
     if (rfc < EAV_RFC_822 || rfc > EAV_RFC_6531) {
         VF_ASSERT(s == EEAV_INVALID_RFC, "C15: eav_setup returns EEAV_INVALID_RFC for every undefined mode");
         const char *m = eav_errstr(&e);
-        VF_ASSERT(m == cb_msg_of(EEAV_INVALID_RFC), "C15: after a failed eav_setup eav_errstr reports the invalid-RFC condition");
+        VF_ASSERT(CB_SAME_MSG(m, cb_msg_of(EEAV_INVALID_RFC)), "C15: after a failed eav_setup eav_errstr reports the invalid-RFC condition");
         VF_ASSERT(m != NULL && m[0] != 0, "C15: the invalid-RFC message is not empty");
         VF_COVER(1, "invalid-rfc");
         eav_free(&e);
@@ -116,7 +116,7 @@ void harness(void)
         VF_ASSERT(cb_strerror_calls >= 1 && cb_strerror_arg == e.result->idn_rc, "C15/C19: ... for the IDN code of this result");
         VF_COVER(1, "idn-error");
     } else {
-        VF_ASSERT(m == cb_msg_of(e.errcode), "C15: eav_errstr is the message of the recorded code");
+        VF_ASSERT(CB_SAME_MSG(m, cb_msg_of(e.errcode)), "C15: eav_errstr is the message of the recorded code");
         VF_ASSERT(m != NULL && m[0] != 0, "C15: the message is not empty");
     }
     VF_COVER(ret == 1 && rc == 0, "accepted");
